@@ -1,12 +1,13 @@
 /* Sidecar contracts for the pivot bookkeeping of the dense Cholesky solver -- property C20
    ("the unknowns it names as indeterminable ... their number equals the defect ... identically for every algorithm").
 
-     lib/gnu_gama/adj/adj_chol.h   AdjCholDec::solve()     WHOLE function (41 loops)                        -> checks solve, bounded_count
-                                   blocks of solve()       perm initialisation, ONE iteration of the pivot
-                                                           loop, later uses of perm (x0, substitutions, r,
-                                                           Q0, G)                                           -> checks blk_*
-                                   AdjCholDec::lindep(n)                                                    -> checks lindep, lindep_image
-                                   AdjCholDec::dot(M,i,j)                                                   -> check dot
+     lib/gnu_gama/adj/adj_chol.h   AdjCholDec::solve()     WHOLE function (41 loops)    -> bounded_count (loops unwound, N <= 3)
+                                                                                         [dfcc check `solve`: contracts below, NOT registered:
+                                                                                          out of memory, see unit.json checks_unfinished]
+                                   blocks of solve()       perm initialisation, ONE iteration of the pivot loop, later uses of perm
+                                                           (x0, substitutions, r, Q0, G), ONE Gram-Schmidt step    -> checks blk_*
+                                   AdjCholDec::lindep(n)                                                          -> lindep, lindep_image
+                                   AdjCholDec::dot(M,i,j)                                                         -> dot
 
    Only INDICES and the permutation bookkeeping are the subject.  The floating-point payload (mat, rhs, x0, Q0, G, A, b, x, r) is
    opaque: every element access goes through a stub that ASSERTS the index precondition of the matvec accessor contract
@@ -45,7 +46,8 @@
 
    BLOCKS.  The extractor takes `<header text> { body }`; for a loop the body is ONE ITERATION with the loop variable as a parameter and the
    loop header matched verbatim (a changed bound is an extraction break, exit 2).  The statement `for (...) invp(perm(i)) = i;` has no
-   braces and cannot be taken as a block: P5 is decided on the whole function only (checks solve [thorough], bounded_count [quick]).
+   braces and cannot be taken as a block: P5 is decided on the whole function only, i.e. by bounded_count (N <= 3, includes 3-cycles);
+   the unbounded loop contract for it is written below (loop 13 of AdjCholDec_solve) but the whole-function dfcc check does not fit into memory.
    Only contracts, ghost code, callee stubs and harnesses live here; the bodies are extracted from /repo on every run. */
 
 //@ prelude
@@ -564,7 +566,8 @@ GV_CANARY("AdjCholDec_blk_perm_init entry");
        Loop-level consequences (meta-argument over the verbatim loop header `for (Index column=1; column<=N; column++)`, which the extractor
        matches token by token): iterations 1..c-1 return without gv_brk and leave nullity == 0; the loop ends either after iteration N
        (N accepted pivots, nullity == 0 == N - N) or at the first iteration c that sets gv_brk (c-1 accepted pivots, nullity == N - (c-1));
-       it runs at most N times.  The same facts are proved with a real loop contract on the whole function (check solve). */
+       it runs at most N times.  The same facts are stated as a real loop contract on the whole function (loop 6 of AdjCholDec_solve, ghost counter
+       gv_accepted) and checked with the loop unwound by bounded_count. */
 //@ contract AdjCholDec_blk_pivot_step
 __CPROVER_requires(gv_exc == 0 && !gv_brk && BLK_SHAPE(self) && 1 <= column && column <= self->N && self->nullity == 0)
 __CPROVER_requires(self->s_tol > 0)
